@@ -90,6 +90,13 @@ ObsDefects(o, ix) ==
          \cup VecDefects(o.rd.vecs, ix, "reader_item_vector")
          \cup IterDefects(o.rd.iter, ix, "reader_iter"))
 
+\* C06 against the state the SPECIFICATION computes for a deterministic operation (not the logged one):
+\* if the operation left something behind that keeps the index open-able, this is where it shows
+StaleDefects(o, exp) ==
+  IF ~o.ok THEN {}
+  ELSE (IF o.need_build # NeedBuildRes(exp) THEN {<<"C06", "need_build_differs_from_the_specified_state">>} ELSE {})
+  \cup (IF o.open # OpenRes(exp, exp.metric) THEN {<<"C06", "open_" \o OpenRes(exp, exp.metric) \o "_expected_got_" \o o.open>>} ELSE {})
+
 \* what every event on index i must satisfy whatever the operation
 CommonDefects(e) ==
        (IF ~e.same THEN {<<"C07", "other_index_changed">>} ELSE {})
@@ -127,6 +134,7 @@ AddLike(name) ==
          accept == e.len = pre.dim /\ (name = "Add" \/ e.above_all)
          bad ==
            CommonDefects(e) \cup ObsDefects(e.obs, post) \cup
+           StaleDefects(e.obs, IF accept /\ e.tok # 0 THEN AddOp(pre, e.id, e.tok) ELSE pre) \cup
            (IF e.len # pre.dim
             THEN (IF e.res.c # "DimErr" THEN {<<"C19", "wrong_length_not_rejected">>}
                   ELSE IF e.res.exp # pre.dim \/ e.res.got # e.len THEN {<<"C19", "dimension_error_numbers">>} ELSE {})
@@ -148,7 +156,7 @@ Del ==
          pre == cur[e.i]
          post == JIndex(e.st)
          bad ==
-           CommonDefects(e) \cup ObsDefects(e.obs, post) \cup
+           CommonDefects(e) \cup ObsDefects(e.obs, post) \cup StaleDefects(e.obs, DelOp(pre, e.id)) \cup
            (IF e.res.c # "Ok" THEN {<<"C05", "delete_failed">>}
             ELSE (IF e.res.ret # DelRet(pre, e.id) THEN {<<"C05", "delete_return_value">>} ELSE {})
               \cup (IF post # DelOp(pre, e.id)
@@ -201,7 +209,7 @@ Clear ==
   /\ LET e == Rec[l]
          pre == cur[e.i]
          post == JIndex(e.st)
-         bad == CommonDefects(e) \cup ObsDefects(e.obs, post) \cup
+         bad == CommonDefects(e) \cup ObsDefects(e.obs, post) \cup StaleDefects(e.obs, ClearOp(pre)) \cup
                 (IF e.res.c # "Ok" THEN {<<"C05", "clear_failed">>} ELSE {}) \cup
                 (IF post # ClearOp(pre) THEN {<<"C05", "clear_effect">>} ELSE {})
      IN /\ Report("VIOL", e, IF Faulted(e) THEN {} ELSE bad)
